@@ -455,3 +455,20 @@ Definition pwf_b (g : graph) : bool :=
      (negb (memn (g_root g) (n_parents n)) || match n_parents n with [p] => Nat.eqb p (g_root g) | _ => false end) &&
      forallb (fun p => negb (n_reg (nd g p) =? n_reg (nd g (g_root g)))%N || Nat.eqb p (g_root g)) (n_parents n))
     (seq 0 (length (g_nodes g))).
+
+(* ---- the hypotheses of the C03 "present setup is never executed" theorem (Proofs/TraversePresent.v) on the class of i:
+        every member lies in the graph, sees the same class, and is an ordinary (not root / dry / flat / clone source)
+        stateful test with the global reuse scope ---- *)
+Definition cls_b (g : graph) (i : nat) : bool :=
+  forallb (fun j =>
+     (j <? length (g_nodes g)) && negb (n_root (nd g j)) && negb (n_dry (nd g j)) && negb (n_flat (nd g j)) &&
+     negb (n_cloned (nd g j)) && stateful (nd g j) && scope_eqb (n_scope (nd g j)) Global &&
+     set_eq (class_of g j) (class_of g i))
+    (class_of g i).
+(* ... for every node that is itself such a test *)
+Definition cls_all_b (g : graph) : bool :=
+  forallb (fun i =>
+     let n := nd g i in
+     if negb (n_root n) && negb (n_dry n) && negb (n_flat n) && negb (n_cloned n) && stateful n && scope_eqb (n_scope n) Global
+     then cls_b g i else true)
+    (seq 0 (length (g_nodes g))).
